@@ -195,6 +195,59 @@ def run(ctx):
         ob.note('distinct (application, parameter, index) triples give distinct index lists because each level is an injective '
                 'function of its argument (n -> n + 2^31 on [0, 2^31)) and the application code is the second level; the term '
                 'comparisons above establish that each application uses exactly its code')
+    # ---------------------------------------------------------------- the paper wallet's BIP85 block
+    # every entry the wallet prints under a BIP85 path label must be what the application gives for the parameters the
+    # label spells (seed C12-O: the row labelled .../32'/2' holds xprv(index=1)) - compared with the API's own value, which
+    # the obligations above tie to the specification
+    fpw = p.get_function('paper_wallet.PaperWallet.bip85_data')
+    with ctx.obligation('C12.PAPER', 'PaperWallet.bip85_data', None, fpw.where) as ob:
+        from .C15 import paper_wallet as _pw
+        w_, _ = _pw('prv', T.FALSE, p)
+        ev = Evaluator(p, 'ecdsa', summaries=summ)
+        tbl, _ = ev.call_function('paper_wallet.PaperWallet.bip85_data', [w_])
+        tl = distinct_normal_leaves(tbl)
+        if len(tl) != 1 or T.tag(tl[0]) != 'dict':
+            ob.undecided('bip85_data does not evaluate to one mapping: %s' % T.show(tbl, maxdepth=3), fpw.where)
+        else:
+            b85 = attr_of(ev, w_, 'bip85')
+            B = 'bip85.BIP85DeterministicEntropy.'
+            n_rows = 0
+            for lab, val in tl[0][1]:
+                if not (T.is_const(lab) and isinstance(lab[1], str) and lab[1].startswith("m/%d'/" % ROOT)):
+                    ob.note('entry %s is not labelled with a BIP85 path' % T.show(lab))
+                    continue
+                comps = lab[1].split('/')[2:]
+                if not all(c_.endswith(("'", 'h')) and c_[:-1].isdigit() for c_ in comps) or len(comps) < 2:
+                    ob.require(False, 'label %r is not a fully hardened BIP85 path' % lab[1], fpw.where)
+                    continue
+                nums = [int(c_[:-1]) for c_ in comps]
+                app, rest = nums[0], nums[1:]
+                call = None
+                if app == APPS['bip39'] and len(rest) == 3 and rest[0] == 0:
+                    call = ('bip39_mnemonic', {'word_count': T.const(rest[1]), 'index': T.const(rest[2])})
+                elif app == APPS['wif'] and len(rest) == 1:
+                    call = ('wif', {'index': T.const(rest[0])})
+                elif app == APPS['xprv'] and len(rest) == 1:
+                    call = ('xprv', {'index': T.const(rest[0])})
+                elif app == APPS['hex'] and len(rest) == 2:
+                    call = ('hex', {'num_bytes': T.const(rest[0]), 'index': T.const(rest[1])})
+                elif app == APPS['pwd'] and len(rest) == 2:
+                    call = ('pwd', {'pwd_len': T.const(rest[0]), 'index': T.const(rest[1])})
+                if call is None:
+                    ob.require(False, 'label %r names no BIP85 application of this library' % lab[1], fpw.where)
+                    continue
+                want, _ = ev.call_function(B + call[0], [b85], call[1])
+                n_rows += 1
+                # the invalid-key refusals (2^-127) are lifted out of the table by the evaluator: the values proper are compared
+                vl, wl = distinct_normal_leaves(val), distinct_normal_leaves(want)
+                what = 'the entry labelled %s is %s(%s)' % (lab[1], call[0], ', '.join('%s=%s' % (k_, T.show(v_)) for k_, v_ in call[1].items()))
+                if len(vl) == 1 and len(wl) == 1:
+                    same_term(ob, vl[0], wl[0], what, fpw.where)
+                else:
+                    ob.require({T.hoist(x) for x in vl} == {T.hoist(x) for x in wl}, what, fpw.where,
+                               expected=[T.show(x, maxdepth=4) for x in wl][:2], found=[T.show(x, maxdepth=4) for x in vl][:2])
+            if n_rows == 0:
+                ob.undecided('no BIP85-labelled entry found in bip85_data', fpw.where)
     # "the private key at the application's fully hardened path" and "indexes outside the allowed sets are rejected rather
     # than mapped onto some other path" both rest on CKDpriv: the child is the BIP32 child and the index enters only through
     # the unsigned 4-byte serialisation (which refuses a negative or too large number) - C01's obligations on PrvKeyNode.ckd
